@@ -32,6 +32,10 @@ import (
 type refEntry struct {
 	pos int32
 	tok int32
+	// evicted: a sliding-window sub-cache has dropped this entry because it had left the
+	// window of the sequence's next batch (Causal.updateSlidingWindow). Used only to
+	// recognise the known "context shift pulls evicted entries back into the window" finding.
+	evicted bool
 }
 
 // refSeq is the reference model of one cache sequence (C06: per sequence an
@@ -54,6 +58,25 @@ func (r *refSeq) op(name string) {
 	}
 }
 
+// allEvicted: every position in pos is held by an entry that a sliding-window cache has evicted.
+func (r *refSeq) allEvicted(pos []int) bool {
+	if len(pos) == 0 {
+		return false
+	}
+	for _, p := range pos {
+		ok := false
+		for _, e := range r.ents {
+			if int(e.pos) == p && e.evicted {
+				ok = true
+			}
+		}
+		if !ok {
+			return false
+		}
+	}
+	return true
+}
+
 func (r *refSeq) has(name string) bool {
 	for _, o := range r.ops {
 		if o == name {
@@ -68,6 +91,7 @@ func (r *refSeq) has(name string) bool {
 // cache interface allows (Remove may fail; the caller must then clear).
 type recCache struct {
 	inner        kvcache.Cache
+	window       int32 // window of the sliding-window (sub-)cache, MaxInt32 if there is none
 	f            *simFaults
 	ref          []*refSeq
 	rejectMiddle bool // Remove(seq, b, e) with e != MaxInt32 is not supported
@@ -98,6 +122,23 @@ func (c *recCache) Init(backend ml.Backend, dtype ml.DType, maxSequences, capaci
 }
 
 func (c *recCache) StartForward(ctx ml.Context, batch input.Batch, reserve bool) error {
+	if !reserve && c.window != math.MaxInt32 {
+		// mirror of updateSlidingWindow (it runs before anything in StartForward can fail)
+		for i, sq := range batch.Sequences {
+			lowest := batch.Positions[i]
+			for k, o := range batch.Sequences {
+				if o == sq && batch.Positions[k] < lowest {
+					lowest = batch.Positions[k]
+				}
+			}
+			r := c.seq(sq)
+			for k := range r.ents {
+				if r.ents[k].pos < lowest-c.window {
+					r.ents[k].evicted = true
+				}
+			}
+		}
+	}
 	c.f.inForward = true
 	before := c.f.defragRuns
 	err := c.inner.StartForward(ctx, batch, reserve)
